@@ -322,7 +322,10 @@ fn top_level_object_set_declaration(
         skip_ws(many0(comment)),
         skip_ws(context_boundary(identifier)),
         skip_ws_and_comments(opt(parameterization)),
-        skip_ws_and_comments(uppercase_identifier),
+        // see above: `x RELATIVE-OID ::= { y }` is a value assignment
+        skip_ws_and_comments(verify(uppercase_identifier, |class: &str| {
+            !ASN1_KEYWORDS.contains(&class) || [ABSTRACT_SYNTAX, TYPE_IDENTIFIER].contains(&class)
+        })),
         preceded(assignment, object_set),
     ))
     .parse(input)
